@@ -334,9 +334,31 @@ class Sim:
         self.events = self.smsc.events
         self._saved_open = asyncio.open_connection
         asyncio.open_connection = self.smsc.open_connection
-        clock = type('VTime', (), {'monotonic': staticmethod(self.loop.time)})
-        self._saved_time = [(m, m.time) for m in (cm, rl, th)]
-        for m in (cm, rl, th):
+        # every module of the library that reads the clock (`import time`) reads the simulator's: monotonic() is the loop's
+        # virtual time, everything else is the real module's
+        import time as _real_time
+        import importlib
+        import pkgutil
+        import aiosmpplib as _pkg
+        loop_time = self.loop.time
+
+        class VTime:
+            monotonic = staticmethod(loop_time)
+
+            def __getattr__(self, name):
+                return getattr(_real_time, name)
+        clock = VTime()
+        mods = []
+        for mi in pkgutil.iter_modules(_pkg.__path__):
+            try:
+                mod = importlib.import_module('aiosmpplib.' + mi.name)
+            except Exception:      # noqa
+                continue
+            t_ = getattr(mod, 'time', None)
+            if t_ is _real_time or isinstance(t_, VTime) or type(t_).__name__ == 'VTime':
+                mods.append(mod)
+        self._saved_time = [(m, _real_time) for m in mods]
+        for m in mods:
             m.time = clock
         sim = self
 
